@@ -32,3 +32,19 @@ Theorem C09_chunk_size_irrelevant : forall (V : Type) (src : list V) (ops : list
   run_log (build src (ops ++ [OChunkSize n])) = run_log (build src ops).
 Proof. intros V src ops n. rewrite build_snoc. split; reflexivity. Qed.
 Print Assumptions C09_chunk_size_irrelevant.
+
+(** REFUTED on ties (known finding, DESIGN.md section 6): [max_by] / [max_by_key] are [reduce] with
+    the operator "keep the accumulator unless the new element is strictly greater", so among several
+    maximal elements the sequential value is the first; [Iterator::max_by_key] returns the last.
+    ([min_by] / [min_by_key] keep the first minimum, as std does.) *)
+From OrxPar Require Import Exec.
+Definition std_max_by_key (m : Z) (l : list Z) : option Z :=
+  match l with
+  | [] => None
+  | x :: r => Some (fold_left (fun acc y => if (acc mod m <=? y mod m)%Z then y else acc) r x)
+  end.
+Theorem C09_max_by_key_tie_refuted :
+  let c := mkCase true [3; 8; 1]%Z [DNumThreads 1; DChunkSize 1] (TMaxKey 5) 16%N [] 10 None false false 0 in
+  o_result (exec c) = ROpt (Some 3%Z) /\ std_max_by_key 5 [3; 8; 1]%Z = Some 8%Z.
+Proof. vm_compute. split; reflexivity. Qed.
+Print Assumptions C09_max_by_key_tie_refuted.
